@@ -475,14 +475,23 @@ def run_for(ctx, pid):
         gc.coq_spec_check(ctx, res, what="wildcards")
     if pid == "C05":
         gc.coq_spec_check(ctx, res, what="verdict")
-    if pid == "C10":
+    if pid in ("C10", "C05"):
         # the hypothesis of the structure theorem (Proofs/BuilderShape.wbuild_shape), measured: how many generated
         # models lie in its domain; inside it the model's graph is proved to mirror the rewrites, and the
         # implementation's graph is compared with the model's
         try:
-            dom = ctx.model(gc.FAM, ["(503 %s)" % sexp.enc(r["m"]) for r in res if r is not None])
-            for d in dom:
+            rs = [r for r in res if r is not None]
+            dom = ctx.model(gc.FAM, ["(503 %s)" % sexp.enc(r["m"]) for r in rs])
+            for r, d in zip(rs, dom):
                 ctx.count("theorem_shape_applicable" if d and d[0] == 1 else "theorem_shape_not_applicable")
+                # wbuild_ok_iff_valid: the builder takes the model iff no tuple-to-userset dangles — the proved
+                # characterisation, evaluated and compared with what the IMPLEMENTATION's builder did
+                if d and len(d) > 1 and r["unweighted"][0] in ("ok", "err"):
+                    ctx.count("theorem_builder_verdicts_compared")
+                    if (r["unweighted"][0] == "ok") != (d[1] == 1):
+                        ctx.violation("builder-verdict-differs-from-proved-spec",
+                                      {"model": r["m"], "why": "the implementation's builder %s the model, model_valid says %s"
+                                       % ("accepts" if r["unweighted"][0] == "ok" else "rejects", bool(d[1])), "impl": str(r["unweighted"])[:400]})
         except core.ModelUnavailable:
             pass
     evaluate(ctx, pid, res)
